@@ -170,7 +170,7 @@ REGISTRY["C13"] = domain.c13
 # the real binary (engine E7) contributes process-level facts to these properties
 import binary_engine
 
-BIN_PROPS = {"C10", "C11", "C14", "C16", "C17", "C18", "C20"}
+BIN_PROPS = {"C08", "C10", "C11", "C14", "C16", "C17", "C18", "C20"}
 
 
 def with_binary(fn):
